@@ -30,6 +30,10 @@ InvF(F, a) ==
        IN Mul(F, Pow(F, a, F.p - 2), Pow(F, c, F.p - 1))
 Div(F, a, b) == Mul(F, a, InvF(F, b))
 
+FieldSize(F) == F.p ^ F.d
+\* Euler's criterion (odd characteristic): a is a square iff a = 0 or a^((|F|-1)/2) = 1
+IsSquare(F, a) == a = Zero(F) \/ Pow(F, a, (FieldSize(F) - 1) \div 2) = One(F)
+
 Cube(F, x) == Mul(F, Mul(F, x, x), x)
 Rhs(C, x) == Add(C.F, Add(C.F, Cube(C.F, x), Mul(C.F, C.a, x)), C.b)
 
